@@ -33,8 +33,14 @@ for mp in sorted(glob.glob("/verif/seeded/*/meta.json")):
     if m["seed"][-1] in "efgh" and "first_pass" not in m:
         # round 3 was held out: remember what the frozen checks (before any strengthening) said
         m["first_pass"] = {"detected_by": m.get("detected_by", []), "verif_commit": m.get("verif_commit")}
+    prev = set(m.get("ever_detected_by", [])) | set(m.get("detected_by", []))
     m["checks"] = {p: v for p, v in verdicts.items() if v["rc"] != 0}
     m["detected_by"] = sorted(p for p, v in verdicts.items() if v["rc"] == 1)
+    # never forgotten: the thorough tier replays a seed for every property that ever reported it
+    m["ever_detected_by"] = sorted(prev | set(m["detected_by"]))
+    lost = sorted(prev - set(m["detected_by"]))
+    if lost:
+        print("REGRESSION %s no longer reported by %s" % (m["seed"], lost), flush=True)
     m["analysis_error_in"] = sorted(p for p, v in verdicts.items() if v["rc"] == 2)
     m["silent"] = sorted(p for p, v in verdicts.items() if v["rc"] == 0)
     m["evaluated_at"] = time.strftime("%Y-%m-%dT%H:%M:%SZ", time.gmtime())
